@@ -681,6 +681,20 @@ func checkAtomicReplace(c *Ctx, rule string) {
 				})
 			}
 			wr, sy, cl := one("File", "Write"), one("File", "Sync"), one("File", "Close")
+			// the write handed in as a callback over io.Writer: an interface Write on the temp file itself
+			for _, ci := range allCalls(fn, func(ci ssa.CallInstruction) bool {
+				if _, isDefer := ci.(*ssa.Defer); isDefer || p.FromDeferred(ci) {
+					return false
+				}
+				com := ci.Common()
+				if !com.IsInvoke() || com.Method.Name() != "Write" {
+					return false
+				}
+				mi, ok := com.Value.(*ssa.MakeInterface)
+				return ok && strings.HasSuffix(mi.X.Type().String(), "os.File")
+			}) {
+				wr = append(wr, ci)
+			}
 			dirSync := allCalls(fn, func(ci ssa.CallInstruction) bool {
 				f := ci.Common().StaticCallee()
 				if f == nil || !IsModuleFunc(f) {
